@@ -19,6 +19,12 @@
 #include <fcppt/container/set_intersection.hpp>
 #include <fcppt/container/set_union.hpp>
 #include <fcppt/optional/object_impl.hpp>
+#include <fcppt/range/begin.hpp>
+#include <fcppt/range/empty.hpp>
+#include <fcppt/range/end.hpp>
+#include <fcppt/range/from_pair.hpp>
+#include <fcppt/range/singular.hpp>
+#include <fcppt/range/size.hpp>
 
 #include <functional>
 #include <limits>
@@ -170,6 +176,45 @@ template <class K, bool Const> void check_at_optional()
       else
         VRT_CHECK(!r.has_value(), name + ":spurious", "index %zu >= size %zu gave an element", i, s.size());
     }
+  }
+}
+
+// ------------------------------------------------------------------ range::empty / singular / size / begin / end / from_pair
+// obvious reference: empty <=> no element, singular <=> exactly one element, size = number of elements,
+// [begin, end) and from_pair(pair(begin, end)) enumerate the container's own sequence
+template <class K> void check_range_helpers()
+{
+  static std::string const name = std::string("range_helpers(") + K::name + ")";
+  using C = typename K::type;
+  for (seq const &s : seqs3())
+  {
+    if (!vrt::begin_text(name.c_str(), name + " " + show(s)))
+      continue;
+    C const c = K::make(s);
+    seq const want = K::order(s);
+    vrt::nontrivial(want.size() <= 2);
+    vrt::maybe_sample();
+    VRT_CHECK(fcppt::range::empty(c) == want.empty(), name + ":empty", "empty() wrong for %zu elements", want.size());
+    VRT_CHECK(fcppt::range::singular(c) == (want.size() == 1), name + ":singular", "singular() wrong for %zu elements", want.size());
+    VRT_CHECK(static_cast<std::size_t>(fcppt::range::size(c)) == want.size(), name + ":size", "size() %zu for %zu elements",
+              static_cast<std::size_t>(fcppt::range::size(c)), want.size());
+    seq const via_be(fcppt::range::begin(c), fcppt::range::end(c));
+    VRT_CHECK(via_be == want, name + ":begin_end", "[begin,end) = %s, want %s", show(via_be).c_str(), show(want).c_str());
+    auto const r = fcppt::range::from_pair(std::make_pair(c.begin(), c.end()));
+    seq const via_pair(r.begin(), r.end());
+    VRT_CHECK(via_pair == want, name + ":from_pair", "from_pair = %s, want %s", show(via_pair).c_str(), show(want).c_str());
+    VRT_CHECK(fcppt::range::singular(r) == (want.size() == 1) && fcppt::range::empty(r) == want.empty(), name + ":from_pair_shape",
+              "empty/singular of from_pair wrong for %zu elements", want.size());
+    if constexpr (std::is_same_v<K, k_multiset>)
+      for (int key = 0; key < 3; ++key)
+      {
+        // the classic use: the pair returned by equal_range
+        auto const er = fcppt::range::from_pair(c.equal_range(key));
+        std::size_t const n = static_cast<std::size_t>(std::count(want.begin(), want.end(), key));
+        seq const got(er.begin(), er.end());
+        VRT_CHECK(got == seq(n, key), name + ":from_pair_equal_range", "equal_range(%d) gave %s, want %zu copies", key, show(got).c_str(), n);
+        VRT_CHECK(fcppt::range::singular(er) == (n == 1), name + ":singular_equal_range", "singular wrong for %zu copies of %d", n, key);
+      }
   }
 }
 
@@ -487,6 +532,13 @@ void register_container_shards()
     check_at_optional<k_vector, true>();
     check_at_optional<k_deque, false>();
     check_at_optional<k_string, true>();
+  });
+  c16::shard("range_helpers", [] {
+    check_range_helpers<k_vector>();
+    check_range_helpers<k_list>();
+    check_range_helpers<k_deque>();
+    check_range_helpers<k_set>();
+    check_range_helpers<k_multiset>();
   });
   c16::shard("map_find", [] {
     check_map_find<std::map<int, int>, false>("std::map");
